@@ -495,11 +495,12 @@ func (c01) Run(ctx *Ctx, ci interface{}) (o Outcome) {
 
 	for _, op := range c.Ops {
 		curKind = op.Kind
-		if op.Kind == "translate" && op.N == -1 {
-			curKind = "translate-3-phases"
-		}
 		n := len(m.rows)
 		al, isAl := cont.(align.Alignment)
+		if op.Kind == "translate" && op.N == -1 && isAl && m.aligned && m.length()%3 != 2 {
+			// the known finding: the three phases of L columns have different lengths unless L mod 3 = 2
+			curKind = "translate-3-phases"
+		}
 		before := append([]HRow{}, m.rows...)
 		modelled := true
 		applied := true
@@ -846,18 +847,34 @@ func (c01) Run(ctx *Ctx, ci interface{}) (o Outcome) {
 			{
 				// phases 0-2: each row becomes the translation of its own residues from that phase on (goalign's own
 				// Sequence.Translate is the reference for codon -> amino acid: C05 is not claimed), names and order stay
+				// phase -1: each row becomes three, name_0 name_1 name_2, its translations in the three phases
 				var want []HRow
-				okRef := op.N >= 0 && op.N <= 2
+				okRef := op.N >= -1 && op.N <= 2
 				for _, r := range m.rows {
 					if !okRef {
 						break
 					}
-					aa, err := align.NewSequence(r.Name, []uint8(r.Seq), "").Translate(op.N, 0)
-					if err != nil {
-						okRef = false
-						break
+					for ph := 0; ph <= 2; ph++ {
+						name := r.Name
+						if op.N == -1 {
+							name = fmt.Sprintf("%s_%d", r.Name, ph)
+						} else if ph != op.N {
+							continue
+						}
+						aa, err := align.NewSequence(r.Name, []uint8(r.Seq), "").Translate(ph, 0)
+						if err != nil {
+							okRef = false
+							break
+						}
+						want = append(want, HRow{name, aa.Sequence()})
 					}
-					want = append(want, HRow{r.Name, aa.Sequence()})
+				}
+				if op.N == -1 && okRef {
+					seen := map[string]bool{}
+					for _, w := range want {
+						okRef = okRef && !seen[w.Name]
+						seen[w.Name] = true
+					}
 				}
 				err := cont.Translate(op.N, 0)
 				if err != nil {
